@@ -8,7 +8,10 @@ use ir::ExpressionType;
 use rssl_ast as ast;
 use rssl_ir as ir;
 use rssl_text::*;
+#[cfg(not(trark_rssl_verif))]
 use std::collections::HashMap;
+#[cfg(trark_rssl_verif)]
+use rssl_text::verif_collections::HashMap;
 use std::collections::hash_map::Entry;
 
 /// Stores all ids for types and variables by a module
